@@ -27,3 +27,9 @@ REG_MAN(VecRX, VecRX);
 REG_MAN(VecVec, VecVec);
 REG_MAN(VecVar, VecVar);
 REG_MAN(ops::AnyOf<VecRX>, AnyVecRX);
+// the harness builds a variant holding its LAST alternative: two more orders of the same
+// alternatives, so that the visitors run for every alternative type
+using Var3b = std::variant<SO3d, Eigen::Vector2d, SE2d>;
+using Var3c = std::variant<SE2d, SO3d, Eigen::Vector2d>;
+REG_MAN(Var3b, Var3b);
+REG_MAN(Var3c, Var3c);
